@@ -26,3 +26,26 @@ claim('C03',
       'CheckGCDN1 needs moduli >= 2 for the theorem, modulus 0 (value -1) is outside the model. AttachFactors set union with pre-existing factors and SetTestResult bookkeeping are C16.',
       'Lean 4 proof model = specification over an executable model + differential correspondence with the Python implementation',
       'DESIGN.md section 5 C03, section 6 D1')
+
+claim('C04',
+      'Fermat clause proved at full strength (Props/C04.lean fermat_exact): for all distinct odd primes p<q and every step bound, FermatFactor(pq, steps) = (q,p) '
+      'iff (p+q)/2 - ceil(sqrt(pq)) < steps, else None; even and square moduli by the shortcuts. For the guess-based clauses: the exact success condition of the '
+      'Fermat step inside FactorWithGuess (fwg_one_step: ceil(sqrt(4uvn)) = uq+vp iff (uq-vp)^2 < 2(uq+vp)-1), what it returns (fwg_step_post: both primes), '
+      'the guess algebra (sud_guess_exact) and the list of differences tried (sud_differences) are theorems; soundness is C01. NOT proved: that every modulus of the '
+      'equal-high/low-bits, small-upper-difference and unseeded-PRNG families reaches that condition (depends on a float cube root and on continued-fraction convergents); '
+      'those clauses are evaluated directly on the implementation on every run for generated members of each family (all six differences, every listed unseeded output size, '
+      '(r,s) splits at the boundary) and any miss is reported as a violation with the modulus as replay. Two genuine defects found this way were repaired in /repo (D6a, D6b).',
+      'Trusted: Lean kernel, correspondence harness. Float cube root is an oracle value recomputed by the harness with the same expression. Family-completeness clauses are search, not proof.',
+      'Lean 4 proof (exact characterisation of Fermat; one-step condition) + differential correspondence + property search on the implementation',
+      'DESIGN.md section 5 C04, section 6 D6')
+
+claim('C05',
+      'Pollard clause proved at full strength (Props/C05.lean pollard_flag): for all distinct odd primes, every product m and gcd bound, if p-1 and q-1 share g >= bound with g | m and (p-1) | (n-1)m '
+      'then Pollardpm1 flags n, with factors [p,q] unless 2^((n-1)m) = 1 mod q as well (then flagged without factors). Lattice families: fraction_post — if the LLL basis contains a row whose value '
+      'is a multiple of p and not of q, CheckFraction returns both primes, for every other content of the basis; soundness for every basis is C01. Check-level models of CheckBitPatterns / '
+      'CheckPermutedBitPatterns / CheckPollardpm1 / CheckLowHammingWeight / CheckContinuedFractions (Model/RsaChecks.lean: which denominators are tried, in which order, first success wins, '
+      'UNKNOWN severity when unfactored) are tied to the real Check objects on protobuf keys by correspondence with recorded LLL answers. NOT claimed: that LLL finds the planted vector, that the '
+      'best-first Hamming-weight search succeeds for weight <= 32, or the continued-fraction heuristic (oracle / heuristic success).',
+      'Trusted: Lean kernel, correspondence harness, fpylll as oracle (answers recorded at rsa_util.lll.reduce). powMod is proved equal to b^e mod m.',
+      'Lean 4 proof (Pollard clause; completeness given the oracle row) + differential correspondence with recorded oracle answers',
+      'DESIGN.md section 5 C05')
